@@ -13,9 +13,9 @@ RULE = ("tensors of rank 1-4 (shapes 2-3 per axis, every index-type pattern, 0-2
         "tensor/point/line/quadric x tensor/array/python and numpy scalars, left and right, operators and numpy ufuncs; transpose / T / "
         "tensor_product / expand_dims / copy. Also every __getitem__ and arithmetic call made by the repository's tests. "
         "Non-trivial = an index expression other than a single integer or an operand pairing with a non-scalar; distinct by digest."
-        " Arithmetic results must have numpy's result dtype, a buffer of their own and must leave the operands' bytes unchanged; the neutral scalars 1, 1.0, np.int64(1), 1+0j, 0, -1, True are part of the operand pairings; tensors whose free axis is not the leading one (results of indexing with None / an integer array after a tensor axis) are operands too; T and transpose() are read on every kind of library object; -p, np.negative(p) and (p-p)-p on points must be p*(-1) (directions reversed); leading scalar boolean indices (Python bool, numpy.bool_); copy.copy / copy.deepcopy / pickle round trips / .copy() of every kind of object (tensors, collections, dual quadrics, circles, spheres, segments, triangles, cuboids): class, bytes, index types, duality and vertices preserved, deep copies own their buffer.")
+        " Arithmetic results must have numpy's result dtype, a buffer of their own and must leave the operands' bytes unchanged; the neutral scalars 1, 1.0, np.int64(1), 1+0j, 0, -1, True are part of the operand pairings; tensors whose free axis is not the leading one (results of indexing with None / an integer array after a tensor axis) are operands too; T and transpose() are read on every kind of library object; -p, np.negative(p) and (p-p)-p on points must be p*(-1) (directions reversed); leading scalar boolean indices (Python bool, numpy.bool_); copy.copy / copy.deepcopy / pickle round trips / .copy() of every kind of object (tensors, collections, dual quadrics, circles, spheres, segments, triangles, cuboids): class, bytes, index types, duality and vertices preserved, deep copies own their buffer; n-D boolean masks spelled as nested lists; histories: an object that was an operand of a transformation collection / expand_dims / T / copy / arithmetic keeps its own index types and indexes as before.")
 SHARDS = (8, 16)
-REQUIRED = ["getitem", "arith", "point_arith", "ufunc", "transpose", "expand_dims", "copy", "arith.operands", "copy.roundtrip"]
+REQUIRED = ["getitem", "arith", "point_arith", "ufunc", "transpose", "expand_dims", "copy", "arith.operands", "copy.roundtrip", "history"]
 ASSUMPTIONS = ["numpy indexing/ufunc semantics are the reference", "the structural index model is validated per case against numpy's result shape"]
 EXHAUSTIVE = {"quick": [], "thorough": []}
 
@@ -457,7 +457,7 @@ def _rand_index(rng, shape):
             axis += 1
         elif r < 0.93 and axis + 2 <= ndim:
             m = rng.random(shape[axis:axis + 2]) < 0.6
-            items.append(m)
+            items.append(m.tolist() if rng.random() < 0.35 else m)  # an n-D mask may be spelled as a nested list
             axis += 2
         else:
             break
@@ -792,9 +792,57 @@ def g_copies(ctx, rng, i):
         ctx.judge("copy.roundtrip", False, [o], what=f"copying a {type(o).__name__} changed its coordinate bytes", op="copy", feat={"cls": type(o).__name__})
 
 
+def g_history(ctx, rng, i):
+    """index bookkeeping of an object must survive being an operand: after a transformation collection was applied to it, after expand_dims /
+    transpose / copy / indexing / arithmetic that return new tensors, the object itself still has its index types and indexes like before."""
+    import geometer as g
+
+    o = _rand_object(rng, i) if i % 2 else _rand_tensor(rng, 1 + i % 7)
+    before = _types_of(o)
+    raw = o.array.tobytes()
+    n = o.array.shape[-1]
+    steps = []
+    for _ in range(int(rng.integers(1, 4))):
+        k = int(rng.integers(0, 6))
+        try:
+            if k == 0 and n in (3, 4) and not isinstance(o, g.TransformationCollection):
+                cs = gen.pick(rng, [(2,), (3,), (2, 2), (1,)])
+                m = gen.coords(rng, cs + (n, n), 3, "int") + 7 * np.eye(n, dtype=int)
+                steps.append("TransformationCollection%s * o" % (cs,))
+                g.TransformationCollection(m) * o
+            elif k == 1 and o.free_indices > 0:
+                steps.append("o.expand_dims")
+                o.expand_dims(int(rng.integers(0, o.free_indices + 1)))
+            elif k == 2:
+                steps.append("o.T")
+                o.T
+            elif k == 3:
+                steps.append("o.copy()[None]")
+                o.copy()[None]
+            elif k == 4:
+                steps.append("o * 2 + o")
+                o * 2 + o
+            else:
+                steps.append("o[...]")
+                o[...]
+        except Exception:
+            pass  # judged by the monitors of those calls; here only the state of o afterwards counts
+    feat = {"cls": type(o).__name__, "steps": steps}
+    ok = _types_of(o) == before and o.array.tobytes() == raw
+    ctx.judge("history", bool(ok), [o, steps], what=f"after {steps} the operand's own index types changed from {before} to {_types_of(o)}", op="history", feat=feat)
+    # and it still indexes / adds like a fresh object of the same data (these calls are judged by post_getitem / post_arith as well)
+    try:
+        r = o[None]
+        ok2 = r.array.shape == (1,) + o.array.shape and _struct_ok(r) is None
+        what = f"after {steps}: o[None] has shape {r.array.shape} / index types {_types_of(r)}"
+    except Exception as e:
+        ok2, what = False, f"after {steps}: o[None] raised {type(e).__name__}: {e}"
+    ctx.judge("history", bool(ok2), [o, steps, "None"], what=what, op="history", feat=feat)
+
+
 _tolerant = core.tolerant
 
-g_getitem, g_getitem_structured, g_arith, g_point_arith, g_transpose, g_copies = (_tolerant(f) for f in (g_getitem, g_getitem_structured, g_arith, g_point_arith, g_transpose, g_copies))
+g_getitem, g_getitem_structured, g_arith, g_point_arith, g_transpose, g_copies, g_history = (_tolerant(f) for f in (g_getitem, g_getitem_structured, g_arith, g_point_arith, g_transpose, g_copies, g_history))
 
 GROUPS = [
     {"name": "getitem", "fn": g_getitem, "quick": 6000, "thorough": 80000},
@@ -803,6 +851,7 @@ GROUPS = [
     {"name": "point_arith", "fn": g_point_arith, "quick": 800, "thorough": 8000},
     {"name": "transpose", "fn": g_transpose, "quick": 600, "thorough": 6000},
     {"name": "copies", "fn": g_copies, "quick": 390, "thorough": 3900},
+    {"name": "history", "fn": g_history, "quick": 1200, "thorough": 12000},
 ]
 
 
